@@ -704,6 +704,10 @@ _archive_write_free(struct archive *_a)
 	    ARCHIVE_STATE_ANY | ARCHIVE_STATE_FATAL, "archive_write_free");
 	if (a->archive.state != ARCHIVE_STATE_FATAL)
 		r = archive_write_close(&a->archive);
+	else
+		/* The archive is not finished, but every filter that is
+		 * still open must get the chance to release its resources. */
+		(void)__archive_write_filters_close(a);
 
 	/* Release format resources. */
 	if (a->format_free != NULL) {
